@@ -2,6 +2,7 @@ package props
 
 import (
 	"fmt"
+	"reflect"
 	"strings"
 
 	"github.com/alecthomas/participle/v2"
@@ -131,6 +132,16 @@ func c11Invariants(L []lexer.Token, el map[lexer.TokenType]bool, named bool, n *
 	return walk(n, path, parentS, parentE)
 }
 
+// c11Held is a successful parse kept for a later look: the value the parser
+// returned (not our copy of it) and the token stream it has to describe.
+type c11Held struct {
+	raw   interface{}
+	T     []lexer.Token
+	el    map[lexer.TokenType]bool
+	named bool
+	desc  string
+}
+
 func c11Child(c *mon.Child) {
 	if c.Batch == 0 {
 		c11Parseable(c)
@@ -138,6 +149,7 @@ func c11Child(c *mon.Child) {
 	}
 	nInputs := c.N(120, 240)
 	ks := []int{0, 1, 2, 5, participle.MaxLookahead, -1}
+	var held c11Held
 	for gi, h := range gram.Registry {
 		gp := buildAll(h, ks, gi%3 == 1)
 		if gp.err != nil {
@@ -194,6 +206,21 @@ func c11Child(c *mon.Child) {
 					continue
 				}
 				_ = rs
+				// An AST belongs to its caller: the one kept from an earlier parse (another input, often another
+				// parser) still has to describe that parse after this one has run.
+				if held.raw != nil {
+					n2 := 0
+					if _, _, m2 := c11Invariants(held.T, held.el, held.named, gram.FromReal(reflect.ValueOf(held.raw)), "root", -1, -1, &n2); m2 != "" {
+						c.Violation("", key, fmt.Sprintf("the AST returned by an earlier parse no longer describes it after a later parse ran: %s | earlier parse: %s | later parse: grammar %s input %q", m2, held.desc, gdesc, text),
+							map[string]interface{}{"earlier": held.desc, "grammar": g, "input": text, "difference": m2})
+						held.raw = nil
+					} else {
+						c.Feature("earlier_ASTs_rechecked_after_a_later_parse")
+					}
+				}
+				if nodes >= 2 {
+					held = c11Held{raw: rr.Raw, T: T, el: el, named: named, desc: fmt.Sprintf("grammar %s input %q %s", trunc(gdesc, 300), text, cfg)}
+				}
 				// model-based: exact runs from the reference derivation
 				env := gram.NewEnv(g, T, gp.sym, gp.elided, gp.ci, k, trailing)
 				ref := env.Run()
